@@ -95,6 +95,18 @@ def success_edges(body):
                     if sw2 is not None and sw2.target('Continue') is not None:
                         out.append((sw2.b, sw2.target('Continue'), c))
             continue
+        if 'Ok' in sw.edges and c.dest and re.search(r'Result<std::option::Option<', body.local_ty(c.dest[0])):
+            # Result<Option<T>>: Ok(None) is absence; the item was found on the Some edge of the payload
+            inner = []
+            for s2 in switches(body):
+                if s2.kind == 'enum' and s2.target('Some') is not None:
+                    rs = provenance(body, s2.place, s2.discr_site[0], s2.discr_site[1], through=None)
+                    if rs and all(r.kind == 'call' and r.call.bb == c.bb and r.path == ['as Ok', '0'] for r in rs):
+                        inner.append(s2)
+            if inner:
+                for s2 in inner:
+                    out.append((s2.b, s2.target('Some'), c))
+                continue
         for okv in ('Ok', 'Some', True):
             if okv in sw.edges:
                 out.append((sw.b, sw.edges[okv], c))
@@ -437,21 +449,36 @@ def k6(ctx, cfg, fs):
              (r'^<params::ParseArgument<T> as Parser<T>>::eval$', 'ParseFailed', 1, 'the conversion error of parse_os_str', lambda r: r.kind == 'call' and r.call.is_(r'parse_os_str') and r.path == ['as Err', '0']),
              (r'^<params::ParsePositional<T> as Parser<T>>::eval$', 'ParseFailed', 1, 'the conversion error of parse_os_str', lambda r: r.kind == 'call' and r.call.is_(r'parse_os_str') and r.path == ['as Err', '0'])]
     for rx, variant, fld, what, pred in specs:
-        b = ctx.look(fs.one(rx))
+        b0 = ctx.look(fs.one(rx))
         found = False; good = True; desc = None
-        for i, k, st in b.stmts():
-            if st['k'] == 'assign' and st['rv']['k'] == 'agg' and st['rv'].get('adt') == 'error::Message' and st['rv']['variant'] == variant:
-                found = True
-                rs = provenance(b, st['rv']['fields'][fld], i, k, through=None)
-                desc = rs
-                good &= bool(rs) and all(pred(r) for r in rs)
-                if variant == 'ParseFailed' and 'ParseWith' in rx:
-                    # to_string of the Err payload of the user function
-                    for r in rs:
-                        if r.kind == 'call':
-                            inner = provenance(b, r.call.args[0], r.call.bb, 'term', through=None)
-                            good &= all(x.kind == 'call' and x.call.is_(r'as std::ops::Fn<') and x.path == ['as Err', '0'] for x in inner)
-        ctx.ob('K6.text', '%s:%s-text' % (short(b.path), variant), found and good, '%s stores %s in %s (%s)' % (short(b.path), what, variant, desc), where=b.where(), cfg=cfg)
+        for b in fs.family(b0):
+            in_clo = b is not b0
+            for i, k, st in b.stmts():
+                if st['k'] == 'assign' and st['rv']['k'] == 'agg' and st['rv'].get('adt') == 'error::Message' and st['rv']['variant'] == variant:
+                    found = True
+                    rs = provenance(b, st['rv']['fields'][fld], i, k, through=None)
+                    desc = rs
+                    if in_clo:
+                        # the message is built by a closure handed to map_err on the failing call: its argument is that call's error
+                        me = [c for c in b0.calls() if c.is_(r'Result::<.*>::map_err$') and any(q.kind == 'agg' and q.extra.get('closure') == b.path for q in provenance(b0, c.args[1], c.bb, 'term', through=None))]
+                        src = [q for c in me for q in provenance(b0, c.args[0], c.bb, 'term', through=None)]
+                        good &= bool(me) and bool(src)
+                        if variant == 'ParseFailed' and 'ParseWith' in rx:
+                            good &= all(x.kind == 'call' and x.call.is_(r'as std::ops::Fn<') for x in src)
+                            good &= bool(rs) and all(r.kind == 'call' and r.call.is_(r'ToString>::to_string$') and all(z.kind == 'param' for z in provenance(b, r.call.args[0], r.call.bb, 'term', through=None)) for r in rs)
+                        elif variant == 'ParseFailed':
+                            good &= all(x.kind == 'call' and x.call.is_(r'parse_os_str') for x in src) and bool(rs) and all(r.kind == 'param' for r in rs)
+                        else:
+                            good &= bool(rs) and all(pred(r) or r.kind == 'upvar' for r in rs)
+                        continue
+                    good &= bool(rs) and all(pred(r) for r in rs)
+                    if variant == 'ParseFailed' and 'ParseWith' in rx:
+                        # to_string of the Err payload of the user function
+                        for r in rs:
+                            if r.kind == 'call':
+                                inner = provenance(b, r.call.args[0], r.call.bb, 'term', through=None)
+                                good &= all(x.kind == 'call' and x.call.is_(r'as std::ops::Fn<') and x.path == ['as Err', '0'] for x in inner)
+        ctx.ob('K6.text', '%s:%s-text' % (short(b0.path), variant), found and good, '%s stores %s in %s (%s)' % (short(b0.path), what, variant, desc), where=b0.where(), cfg=cfg)
     # render side
     b = ctx.look(fs.one(r'^error::Message::render$'))
     for variant in ('ParseFailed', 'GuardFailed', 'PureFailed'):
